@@ -13,6 +13,7 @@ import BV.C05.Lemmas8
 import BV.C05.Lemmas9
 import BV.C05.Lemmas14
 import BV.C05.Lemmas15
+import BV.C05.Lemmas16
 import BV.Generated.C05
 namespace BV.C05
 open Treap
@@ -378,6 +379,19 @@ byte-identical by `readBlock`, for every block, network and surrounding file con
 theorem block_bytes_faithful (net : Nat) (pre b post : Bytes) :
     readRecord crc32c net (pre ++ record crc32c net b ++ post) pre.length (b.length + 12) = .ok b :=
   Lemmas.readRecord_record crc32c Lemmas.crc32c_lt net pre b post
+
+/-- `block_log_history_faithful`: append any list of blocks to an empty log with ANY file size limit
+(`writeBlock` with its roll-over rule, files as byte lists): afterwards EVERY block of the history is
+read back byte-identical through the location that `writeBlock` returned for it — later appends and
+roll-overs never disturb an earlier record — and the write cursor is again the end of valid data. -/
+theorem block_log_history_faithful (net maxFile : Nat) (bs : List Bytes) :
+    let r := Lemmas.logRun crc32c net maxFile ⟨[], 0, 0⟩ bs
+    LogOk r.1 ∧ ∀ p ∈ r.2, readRecord crc32c net (r.1.file p.1.1) p.1.2.1 p.1.2.2 = .ok p.2 := by
+  have h0 : LogOk ⟨[], 0, 0⟩ := ⟨rfl, fun _ _ => rfl⟩
+  have := Lemmas.logRun_readable crc32c Lemmas.crc32c_lt net maxFile bs ⟨[], 0, 0⟩ [] h0
+    (fun p hp => by cases hp)
+  simp only [List.append_nil] at this
+  exact ⟨this.1, fun p hp => (this.2 p hp).2⟩
 
 /-- regions are sub-slices of the stored block -/
 theorem block_region_subslice (net : Nat) (pre b post : Bytes) (off n : Nat) (h : off + n ≤ b.length) :
